@@ -302,6 +302,93 @@ fn hydrocarbon_pairs(args: &Args, rng: &mut Rng) -> Vec<(String, Arc<M>, f64, f6
     out
 }
 
+/// Bubble and dew point at (T, z) with guesses and the pressure specification, flashes strictly inside the envelope with warm starts, stability
+/// verdicts on both sides, flash sweeps: everything C05 / C07 / C12 judge at one grid point of a mixture with any number of components.
+fn point_events(tr: &mut Tr, name: &str, eos: &Arc<M>, calibrated: bool, t: Temperature, z: Array1<f64>, grid: &str) {
+        // bubble and dew point at T
+        let bub = g(|| PhaseEquilibrium::bubble_point(&eos, t, &z, None, None, (opts(), opts())));
+        let dew = g(|| PhaseEquilibrium::dew_point(&eos, t, &z, None, None, (opts(), opts())));
+        let mut guesses = vec![];
+        if let Ok(b) = &bub {
+            let pb = b.vapor().pressure(CT);
+            for f in [0.4, 2.5] {
+                let r = g(|| PhaseEquilibrium::bubble_point(&eos, t, &z, Some(pb * f), Some(&b.vapor().molefracs), (opts(), opts())));
+                guesses.push(json!({"guess": format!("p_init x{}", f), "res": eq2(&r)}));
+            }
+            // pressure specification: must give back the temperature
+            let r = g(|| PhaseEquilibrium::bubble_point(&eos, pb, &z, Some(t), None, (opts(), opts())));
+            guesses.push(json!({"guess": "p-spec", "res": eq2(&r)}));
+        }
+        tr.ev(json!({"ev":"BubbleDew","kind":"bubble","case":name,"calibrated":calibrated,"grid":grid.to_owned(),"T":fs(t.to_reduced()),"z":fv(z.iter()),"res":eq2(&bub),"guesses":guesses}));
+        let mut guesses = vec![];
+        if let Ok(d) = &dew {
+            let pd = d.vapor().pressure(CT);
+            for f in [0.4, 2.5] {
+                let r = g(|| PhaseEquilibrium::dew_point(&eos, t, &z, Some(pd * f), Some(&d.liquid().molefracs), (opts(), opts())));
+                guesses.push(json!({"guess": format!("p_init x{}", f), "res": eq2(&r)}));
+            }
+            let r = g(|| PhaseEquilibrium::dew_point(&eos, pd, &z, Some(t), None, (opts(), opts())));
+            guesses.push(json!({"guess": "p-spec", "res": eq2(&r)}));
+        }
+        tr.ev(json!({"ev":"BubbleDew","kind":"dew","case":name,"calibrated":calibrated,"grid":grid.to_owned(),"T":fs(t.to_reduced()),"z":fv(z.iter()),"res":eq2(&dew),"guesses":guesses}));
+        // flash strictly inside the envelope, and stability on both sides
+        if let (Ok(b), Ok(d)) = (&bub, &dew) {
+            let (pb, pd) = (b.vapor().pressure(CT), d.vapor().pressure(CT));
+            let feed = Moles::from_reduced(&z * 1.7);
+            for w in [0.25, 0.6] {
+                let p = pd + (pb - pd) * w;
+                let fl = g(|| PhaseEquilibrium::tp_flash(&eos, t, p, &feed, None, opts(), None));
+                let mut guesses = vec![];
+                if let Ok(f0) = &fl {
+                    let r = g(|| PhaseEquilibrium::tp_flash(&eos, t, p, &feed, Some(b), opts(), None));
+                    guesses.push(json!({"guess": "bubble point as initial state", "res": eq2(&r)}));
+                    let r = g(|| PhaseEquilibrium::tp_flash(&eos, t, p, &feed, Some(f0), opts(), None));
+                    guesses.push(json!({"guess": "own solution as initial state", "res": eq2(&r)}));
+                    // initial states that belong to OTHER conditions (warm start from a neighbouring point)
+                    for (gn, t2, p2) in [("flash at 0.985 T as initial state", t * 0.985, p), ("flash at 1.01 T as initial state", t * 1.01, p),
+                                         ("flash at shifted p as initial state", t, pd + (pb - pd) * (1.0 - w))] {
+                        if let Ok(f2) = g(|| PhaseEquilibrium::tp_flash(&eos, t2, p2, &feed, None, opts(), None)) {
+                            let r = g(|| PhaseEquilibrium::tp_flash(&eos, t, p, &feed, Some(&f2), opts(), None));
+                            guesses.push(json!({"guess": gn, "res": eq2(&r)}));
+                        }
+                    }
+                    // C07: converged phases are stable
+                    for ph in [f0.vapor(), f0.liquid()] {
+                        stability_event(tr, name, &eos, ph.temperature, ph.density, &ph.molefracs, "stable");
+                    }
+                }
+                tr.ev(json!({"ev":"Flash","case":name,"calibrated":calibrated,"grid":format!("{},w={}",grid,w),"T":fs(t.to_reduced()),"p":fs(p.to_reduced()),"feed":fv(feed.to_reduced().iter()),
+                    "inside": fs(w), "res":eq2(&fl),"guesses":guesses}));
+                // C07: the feed itself at (T,p) strictly inside the envelope is unstable
+                if let Ok(s) = State::new_npt(&eos, t, p, &feed, DensityInitialization::None) {
+                    stability_event(tr, name, &eos, t, s.density, &z, "unstable");
+                }
+            }
+            // sweeps of warm-started flashes (PhaseDiagram::lle): in T at fixed p and in p at fixed T
+            {
+                let p = pd + (pb - pd) * 0.5;
+                let np = 5;
+                let (t0, t1) = (t * 0.99, t * 1.01);
+                if let Ok(d) = g(|| PhaseDiagram::lle(&eos, p, &feed, t0, t1, Some(np))) {
+                    tr.ev(json!({"ev":"FlashSweep","case":name,"vary":"T","fixed":fs(p.to_reduced()),"min":fs(t0.to_reduced()),"max":fs(t1.to_reduced()),"npoints":np,
+                        "feed":fv(feed.to_reduced().iter()),"states":d.states.iter().map(|s| json!({"v": phase(s.vapor()), "l": phase(s.liquid())})).collect::<Vec<_>>()}));
+                }
+                let (p0, p1) = (pd + (pb - pd) * 0.3, pd + (pb - pd) * 0.7);
+                if let Ok(d) = g(|| PhaseDiagram::lle(&eos, t, &feed, p0, p1, Some(np))) {
+                    tr.ev(json!({"ev":"FlashSweep","case":name,"vary":"p","fixed":fs(t.to_reduced()),"min":fs(p0.to_reduced()),"max":fs(p1.to_reduced()),"npoints":np,
+                        "feed":fv(feed.to_reduced().iter()),"states":d.states.iter().map(|s| json!({"v": phase(s.vapor()), "l": phase(s.liquid())})).collect::<Vec<_>>()}));
+                }
+            }
+            for (p, ex) in [(pb * 1.02, "stable"), (pd * 0.98, "stable")] {
+                if let Ok(s) = State::new_npt(&eos, t, p, &feed, DensityInitialization::None) {
+                    stability_event(tr, name, &eos, t, s.density, &z, ex);
+                    let fl = g(|| PhaseEquilibrium::tp_flash(&eos, t, p, &feed, None, opts(), None));
+                    tr.ev(json!({"ev":"FlashOutside","case":name,"T":fs(t.to_reduced()),"p":fs(p.to_reduced()),"res":eq2(&fl)}));
+                }
+            }
+        }
+}
+
 fn mixture_events(tr: &mut Tr, args: &Args, rng: &mut Rng) {
     let mut systems = hydrocarbon_pairs(args, rng);
     // other families: conditions whenever Ok (not part of the success clause)
@@ -331,88 +418,7 @@ fn mixture_events(tr: &mut Tr, args: &Args, rng: &mut Rng) {
         for (tf, x1) in grid {
             let t = Temperature::from_reduced(tc_lo * tf);
             let z = arr1(&[x1, 1.0 - x1]);
-            // bubble and dew point at T
-            let bub = g(|| PhaseEquilibrium::bubble_point(&eos, t, &z, None, None, (opts(), opts())));
-            let dew = g(|| PhaseEquilibrium::dew_point(&eos, t, &z, None, None, (opts(), opts())));
-            let mut guesses = vec![];
-            if let Ok(b) = &bub {
-                let pb = b.vapor().pressure(CT);
-                for f in [0.4, 2.5] {
-                    let r = g(|| PhaseEquilibrium::bubble_point(&eos, t, &z, Some(pb * f), Some(&b.vapor().molefracs), (opts(), opts())));
-                    guesses.push(json!({"guess": format!("p_init x{}", f), "res": eq2(&r)}));
-                }
-                // pressure specification: must give back the temperature
-                let r = g(|| PhaseEquilibrium::bubble_point(&eos, pb, &z, Some(t), None, (opts(), opts())));
-                guesses.push(json!({"guess": "p-spec", "res": eq2(&r)}));
-            }
-            tr.ev(json!({"ev":"BubbleDew","kind":"bubble","case":name,"calibrated":calibrated,"grid":format!("T/Tc={},x1={}",tf,x1),"T":fs(t.to_reduced()),"z":fv(z.iter()),"res":eq2(&bub),"guesses":guesses}));
-            let mut guesses = vec![];
-            if let Ok(d) = &dew {
-                let pd = d.vapor().pressure(CT);
-                for f in [0.4, 2.5] {
-                    let r = g(|| PhaseEquilibrium::dew_point(&eos, t, &z, Some(pd * f), Some(&d.liquid().molefracs), (opts(), opts())));
-                    guesses.push(json!({"guess": format!("p_init x{}", f), "res": eq2(&r)}));
-                }
-                let r = g(|| PhaseEquilibrium::dew_point(&eos, pd, &z, Some(t), None, (opts(), opts())));
-                guesses.push(json!({"guess": "p-spec", "res": eq2(&r)}));
-            }
-            tr.ev(json!({"ev":"BubbleDew","kind":"dew","case":name,"calibrated":calibrated,"grid":format!("T/Tc={},x1={}",tf,x1),"T":fs(t.to_reduced()),"z":fv(z.iter()),"res":eq2(&dew),"guesses":guesses}));
-            // flash strictly inside the envelope, and stability on both sides
-            if let (Ok(b), Ok(d)) = (&bub, &dew) {
-                let (pb, pd) = (b.vapor().pressure(CT), d.vapor().pressure(CT));
-                let feed = Moles::from_reduced(&z * 1.7);
-                for w in [0.25, 0.6] {
-                    let p = pd + (pb - pd) * w;
-                    let fl = g(|| PhaseEquilibrium::tp_flash(&eos, t, p, &feed, None, opts(), None));
-                    let mut guesses = vec![];
-                    if let Ok(f0) = &fl {
-                        let r = g(|| PhaseEquilibrium::tp_flash(&eos, t, p, &feed, Some(b), opts(), None));
-                        guesses.push(json!({"guess": "bubble point as initial state", "res": eq2(&r)}));
-                        let r = g(|| PhaseEquilibrium::tp_flash(&eos, t, p, &feed, Some(f0), opts(), None));
-                        guesses.push(json!({"guess": "own solution as initial state", "res": eq2(&r)}));
-                        // initial states that belong to OTHER conditions (warm start from a neighbouring point)
-                        for (gn, t2, p2) in [("flash at 0.985 T as initial state", t * 0.985, p), ("flash at 1.01 T as initial state", t * 1.01, p),
-                                             ("flash at shifted p as initial state", t, pd + (pb - pd) * (1.0 - w))] {
-                            if let Ok(f2) = g(|| PhaseEquilibrium::tp_flash(&eos, t2, p2, &feed, None, opts(), None)) {
-                                let r = g(|| PhaseEquilibrium::tp_flash(&eos, t, p, &feed, Some(&f2), opts(), None));
-                                guesses.push(json!({"guess": gn, "res": eq2(&r)}));
-                            }
-                        }
-                        // C07: converged phases are stable
-                        for ph in [f0.vapor(), f0.liquid()] {
-                            stability_event(tr, &name, &eos, ph.temperature, ph.density, &ph.molefracs, "stable");
-                        }
-                    }
-                    tr.ev(json!({"ev":"Flash","case":name,"calibrated":calibrated,"grid":format!("T/Tc={},x1={},w={}",tf,x1,w),"T":fs(t.to_reduced()),"p":fs(p.to_reduced()),"feed":fv(feed.to_reduced().iter()),
-                        "inside": fs(w), "res":eq2(&fl),"guesses":guesses}));
-                    // C07: the feed itself at (T,p) strictly inside the envelope is unstable
-                    if let Ok(s) = State::new_npt(&eos, t, p, &feed, DensityInitialization::None) {
-                        stability_event(tr, &name, &eos, t, s.density, &z, "unstable");
-                    }
-                }
-                // sweeps of warm-started flashes (PhaseDiagram::lle): in T at fixed p and in p at fixed T
-                {
-                    let p = pd + (pb - pd) * 0.5;
-                    let np = 5;
-                    let (t0, t1) = (t * 0.99, t * 1.01);
-                    if let Ok(d) = g(|| PhaseDiagram::lle(&eos, p, &feed, t0, t1, Some(np))) {
-                        tr.ev(json!({"ev":"FlashSweep","case":name,"vary":"T","fixed":fs(p.to_reduced()),"min":fs(t0.to_reduced()),"max":fs(t1.to_reduced()),"npoints":np,
-                            "feed":fv(feed.to_reduced().iter()),"states":d.states.iter().map(|s| json!({"v": phase(s.vapor()), "l": phase(s.liquid())})).collect::<Vec<_>>()}));
-                    }
-                    let (p0, p1) = (pd + (pb - pd) * 0.3, pd + (pb - pd) * 0.7);
-                    if let Ok(d) = g(|| PhaseDiagram::lle(&eos, t, &feed, p0, p1, Some(np))) {
-                        tr.ev(json!({"ev":"FlashSweep","case":name,"vary":"p","fixed":fs(t.to_reduced()),"min":fs(p0.to_reduced()),"max":fs(p1.to_reduced()),"npoints":np,
-                            "feed":fv(feed.to_reduced().iter()),"states":d.states.iter().map(|s| json!({"v": phase(s.vapor()), "l": phase(s.liquid())})).collect::<Vec<_>>()}));
-                    }
-                }
-                for (p, ex) in [(pb * 1.02, "stable"), (pd * 0.98, "stable")] {
-                    if let Ok(s) = State::new_npt(&eos, t, p, &feed, DensityInitialization::None) {
-                        stability_event(tr, &name, &eos, t, s.density, &z, ex);
-                        let fl = g(|| PhaseEquilibrium::tp_flash(&eos, t, p, &feed, None, opts(), None));
-                        tr.ev(json!({"ev":"FlashOutside","case":name,"T":fs(t.to_reduced()),"p":fs(p.to_reduced()),"res":eq2(&fl)}));
-                    }
-                }
-            }
+            point_events(tr, &name, &eos, calibrated, t, z, &format!("T/Tc={},x1={}", tf, x1));
         }
         // binary critical points (C06) and diagrams (C05/C12) on a subset
         if args.thorough || rng.below(3) == 0 {
@@ -495,6 +501,31 @@ fn mixture_events(tr: &mut Tr, args: &Args, rng: &mut Rng) {
                     }
                     Err(e) => tr.ev(json!({"ev":"EnvelopeLine","case":name,"kind":kind,"z":fv(z.iter()),"Tmin":fs(tmin.to_reduced()),"npoints":np,"ok":false,"err":err_name(&e),"points":[]})),
                 }
+            }
+        }
+    }
+}
+
+// ------------------------------------------------------------------------------------------------ ternary mixtures
+/// Ternary PC-SAFT mixtures of shipped records (the quantifier of C05 / C07 / C12 names binary AND ternary mixtures): the same grid-point events
+/// as for binaries at three compositions and two temperatures; not part of the success clause ("found"), conditions whenever Ok.
+fn ternary_events(tr: &mut Tr, args: &Args, _rng: &mut Rng) {
+    let triples: Vec<[&str; 3]> = if args.thorough {
+        vec![["propane", "butane", "pentane"], ["methane", "ethane", "propane"], ["hexane", "heptane", "octane"], ["carbon dioxide", "propane", "butane"]]
+    } else { vec![["propane", "butane", "pentane"], ["methane", "ethane", "propane"]] };
+    for names in triples {
+        let Ok(par) = guarded(std::panic::AssertUnwindSafe(|| PcSaftParameters::from_json(names.to_vec(), ppath("pcsaft/gross2001.json"), None, feos_core::parameter::IdentifierOption::Name))) else { continue };
+        let Ok(par) = par else { continue };
+        let eos = Arc::new(M::PcSaft(PcSaft::new(Arc::new(par))));
+        let Ok(tcs) = State::critical_point_pure(&eos, None, opts()) else { continue };
+        let tc_lo = tcs.iter().map(|s| s.temperature.to_reduced()).fold(f64::INFINITY, f64::min);
+        let name = format!("tern:gross2001/{}+{}+{}", names[0], names[1], names[2]);
+        let temps: Vec<f64> = if args.thorough { vec![0.7, 0.85] } else { vec![0.8] };
+        let comps: Vec<[f64; 3]> = if args.thorough { vec![[1.0 / 3.0, 1.0 / 3.0, 1.0 / 3.0], [0.6, 0.3, 0.1], [0.1, 0.3, 0.6], [0.05, 0.9, 0.05]] } else { vec![[0.5, 0.3, 0.2], [0.1, 0.3, 0.6], [0.05, 0.9, 0.05]] };
+        for tf in &temps {
+            for z in &comps {
+                let t = Temperature::from_reduced(tc_lo * tf);
+                point_events(tr, &name, &eos, false, t, arr1(&z[..]), &format!("T/Tc={},z=({:.2},{:.2},{:.2})", tf, z[0], z[1], z[2]));
             }
         }
     }
@@ -584,6 +615,7 @@ pub fn run(args: &Args) {
     }
     if which == "all" || which == "mix" {
         mixture_events(&mut tr, args, &mut rng);
+        ternary_events(&mut tr, args, &mut rng);
     }
     if which == "all" || which == "mix" || which == "lle" {
         lle_events(&mut tr, args, &mut rng);
